@@ -29,6 +29,8 @@ Record c08_case := {
   k_files : list (string * var * list (Z * cell));  (* CSV files: rows (time in 1/10000 s, cell) *)
   k_status : Z;                               (* 0 fine, 1 audition error, 2 panic *)
   k_nums : list (string * option Q);          (* captured numerals with strconv.ParseFloat's verdict *)
+  k_epoch : Z;                                (* the play start, ns since the Unix epoch *)
+  k_tslog : list (string * option Z);         (* fixed-width ts_log captures with time.Parse's verdict (date - epoch, ns) *)
   k_intent : list intent;
 }.
 
@@ -59,7 +61,15 @@ Definition num_agrees (e : string * option Q) : bool :=
   | None, None => true
   | _, _ => false
   end.
-Definition parse_model_bad (k : c08_case) : bool := negb (forallb num_agrees (k_nums k)).
+(** parse_ts_log vs time.Parse on the fixed-width shape. *)
+Definition tslog_agrees (epoch : Z) (e : string * option Z) : bool :=
+  match parse_ts_log (fst e), snd e with
+  | Some a, Some b => Z.eqb (a - epoch) b
+  | None, None => true
+  | _, _ => false
+  end.
+Definition parse_model_bad (k : c08_case) : bool :=
+  negb (forallb num_agrees (k_nums k) && forallb (tslog_agrees (k_epoch k)) (k_tslog k)).
 
 (** A printed time (%.4f, in 1/10000 s) against an exact one: correct
     rounding, with 100 ns of slack for the float64 seconds. *)
